@@ -765,7 +765,7 @@ theorem update3_spec (f : List ℝ → ℝ) (w : W ℝ) (params : PList ℝ) (ho
       have hval : fn1.fval = f (values w.fn.params) := by rw [← hp1]; exact g2
       split at hr
       · subst hr
-        exact ⟨by rw [nanAll_fn]; exact hp1, by rw [nanAll_fn]; exact g2,
+        exact ⟨by rw [nanAll_fn]; simpa using hp1, by rw [nanAll_fn]; exact enable2_OK f _ _ (enable1_OK f _ _ g2),
           ⟨rfl, rfl, rfl, rfl, rfl, rfl, by rw [nanAll_fn]; simp [g3]⟩, hval⟩
       · -- the loop
         have hLI0 : LI f params w.fn.params { w with fn := fn1, f2 := fn1.fval } (fun w => w.f2)
@@ -843,7 +843,7 @@ theorem update2_spec (f : List ℝ → ℝ) (w : W ℝ) (params : PList ℝ) (ho
       have hval : fn1.fval = f (values w.fn.params) := by rw [← hp1]; exact g2
       split at hr
       · subst hr
-        exact ⟨by rw [nanAll_fn]; exact hp1, by rw [nanAll_fn]; exact g2,
+        exact ⟨by rw [nanAll_fn]; simpa using hp1, by rw [nanAll_fn]; exact enable1_OK f _ _ g2,
           ⟨rfl, rfl, rfl, rfl, rfl, rfl, by rw [nanAll_fn]; simp [g3]⟩, hval⟩
       · have hLI0 : LI f params w.fn.params { w with fn := fn1, f1 := fn1.fval } (fun w => w.f1)
             { w := { w with fn := fn1, f1 := fn1.fval }, p := [], lastVar := none } :=
